@@ -29,8 +29,8 @@ pub fn world() -> World {
         ],
         rule: "one run = one handler and one history of draw / erase / peer eviction / spontaneous error reply events over a pool of images (1x1 .. 70x70, cropped views, equal pixels under different allocations, the empty image) at positions including row/col 0 and 65535, with a sink that may fail at a drawn byte; non-trivial = at least two operations or a fault fired; distinct = distinct hash of (op kinds, image classes, position classes, reply kinds)",
         runs: |_, tier| match tier {
-            Tier::Quick => 60_000,
-            Tier::Thorough => 2_000_000,
+            Tier::Quick => 240_000,
+            Tier::Thorough => 6_000_000,
         },
         features: &["origin-placement", "empty-image"],
     }
